@@ -2,6 +2,7 @@
 package main
 
 import (
+	"io"
 	"bytes"
 	crand "crypto/rand"
 	"crypto/sha256"
@@ -30,7 +31,7 @@ import (
 )
 
 var behaviours = []string{"honest-with-key", "honest-with-key", "honest-without-key", "other-key", "flipped-data", "empty-data", "previous-challenge", "replay-signature", "garbage-reply", "wrong-type-reply", "empty-signature", "wrong-format", "failure", "close", "truncated-signature"}
-var dirStates = []string{"pub", "pub", "bare", "both-same", "both-different", "none", "unparsable", "empty-file", "other-users-key", "right-key-other-name", "other-user-dotted-name", "other-user-dotted-name"}
+var dirStates = []string{"pub", "pub", "bare", "both-same", "both-different", "none", "unparsable", "empty-file", "other-users-key", "right-key-other-name", "other-user-dotted-name", "other-user-dotted-name", "certificate"}
 
 type runRec struct {
 	Behaviour string `json:"agent_behaviour"`
@@ -80,7 +81,7 @@ func (m *chalMon) add(r *ev.Run, c *ev.Case, d []byte) {
 
 func main() {
 	ev.MainIsolated("C01", "exploration", 40*time.Minute, func(r *ev.Run) {
-		r.Rule("seeded runs of gensign.Run with the real regular handler (built by NewHandler from JSON configuration) over a scripted forwarded agent. Per run: agent behaviour in {honest with the key, honest without it, signs with another key, signs the challenge with one bit flipped / empty data / the previous challenge, replays the previous run's signature, garbage reply, well-formed reply of the wrong type, empty signature blob, wrong format string, truncated signature, failure, closes the connection} x user key type {RSA, ECDSA P-256/384/521, Ed25519, sk-ssh-ed25519@openssh.com} x registered-key directory state {<name>.pub, bare <name>, both (same / different keys), none, unparsable, empty file, another user's key under this name, right key under another name only} x policy {NONS, NSOK, other} x hard-key flag; sequences of 2..6 runs on the same agent (replay / freshness); plus handler lists of 1..4 stub/real handlers with every accept/reject pattern. Oracle from the wire log alone: a signer call or an add-identity frame requires that this run's sign request named a registered key and was answered with a signature that the harness itself verifies over exactly the challenge sent, and policy NONS without hard key. distinct_nontrivial = distinct (behaviour, directory state, policy, hard-key, key type, outcome) combinations + distinct handler-list patterns")
+		r.Rule("seeded runs of gensign.Run with the real regular handler (built by NewHandler from JSON configuration) over a scripted forwarded agent. Per run: agent behaviour in {honest with the key, honest without it, signs with another key, signs the challenge with one bit flipped / empty data / the previous challenge, replays the previous run's signature, garbage reply, well-formed reply of the wrong type, empty signature blob, wrong format string, truncated signature, failure, closes the connection} x user key type {RSA, ECDSA P-256/384/521, Ed25519, sk-ssh-ed25519@openssh.com} x registered-key directory state {<name>.pub, bare <name>, both (same / different keys), none, unparsable, empty file, another user's key under this name, right key under another name only, an OpenSSH certificate over the user's key (agent holding the certificate identity and/or the issuing key)} x policy {NONS, NSOK, other} x hard-key flag; sequences of 2..6 runs on the same agent (replay / freshness); plus handler lists of 1..4 stub/real handlers with every accept/reject pattern; plus runs while the process entropy source (crypto/rand.Reader) answers in pieces of 1, 7, 32, 63 bytes or fails (the challenge is still 64 fresh bytes, resp. nobody is authenticated). Oracle from the wire log alone: a signer call or an add-identity frame requires that this run's sign request named a registered key and was answered with a signature that the harness itself verifies over exactly the challenge sent, and policy NONS without hard key. distinct_nontrivial = distinct (behaviour, directory state, policy, hard-key, key type, outcome) combinations + distinct handler-list patterns")
 		r.Assume("x/crypto/ssh signature verification is the reference for 'valid signature'", "login names contain no path separator", "unpredictability is observed as length >= 32, distinctness over the whole run, per-bit balance within 6 sigma (and getrandom provenance under strace in the thorough tier)")
 		gen.Pool()
 		mon := &chalMon{seen: map[[32]byte]bool{}}
@@ -103,6 +104,7 @@ func main() {
 		wg.Wait()
 		handlerLists(r)
 		helper(r, mon)
+		entropyFaults(r, mon)
 		// bit balance over all 64-byte challenges
 		if mon.n >= 1000 {
 			sigma := math.Sqrt(float64(mon.n)) / 2
@@ -185,6 +187,7 @@ func sequence(r *ev.Run, c *ev.Case, seqNo int, mon *chalMon) {
 			kd.Delete(f)
 		}
 		registered := map[string]ssh.PublicKey{}
+		var regCert *ssh.Certificate
 		line := func(k *gen.Key) []byte { return gsrig.AuthorizedLine(k.Pub, "c") }
 		switch dir {
 		case "pub":
@@ -218,6 +221,12 @@ func sequence(r *ev.Run, c *ev.Case, seqNo int, mon *chalMon) {
 		case "right-key-other-name":
 			kd.Write(logName+"x.pub", line(user))
 			kd.Write("x"+logName, line(user))
+		case "certificate":
+			// the registered file holds an OpenSSH certificate over the user's key: what is registered is that
+			// certificate, and possession is possession of the key it certifies — not of the key that issued it
+			regCert = gen.MakeCert(gen.CertSpec{Key: user, KeyID: "registered certificate of " + logName, ValidAfter: 0, ValidBefore: ssh.CertTimeInfinity, Principals: []string{logName}, Serial: uint64(rng.Int63())})
+			kd.Write(logName+".pub", gsrig.AuthorizedLine(regCert, "c"))
+			registered[string(regCert.Marshal())] = regCert
 		}
 		// agent content and behaviour
 		ag.Keyring.RemoveAll()
@@ -227,6 +236,15 @@ func sequence(r *ev.Run, c *ev.Case, seqNo int, mon *chalMon) {
 			ag.Keyring.Add(agent.AddedKey{PrivateKey: user.Priv, Comment: "user"})
 		}
 		ag.Keyring.Add(agent.AddedKey{PrivateKey: other.Priv, Comment: "other"})
+		if regCert != nil {
+			if beh != "honest-without-key" {
+				ag.Keyring.Add(agent.AddedKey{PrivateKey: user.Priv, Certificate: regCert, Comment: "user certificate"})
+			}
+			if rng.Intn(2) == 0 {
+				// whoever holds the issuing key (the CA, not the user) is not the user
+				ag.Keyring.Add(agent.AddedKey{PrivateKey: gen.CA().Priv, Comment: "issuer of the registered certificate"})
+			}
+		}
 		pc, ps := prevChallenge, prevSig
 		switch beh {
 		case "other-key":
@@ -483,6 +501,96 @@ func helper(r *ev.Run, mon *chalMon) {
 			}
 			r.Count("challenge helper outcomes matching the oracle ("+beh+")", 1)
 			r.Nontrivial("helper:" + beh + ":" + user.Name)
+		})
+	}
+}
+
+// ---- faults of the entropy source ------------------------------------------------
+
+// faultyEntropy stands in for crypto/rand.Reader: it hands out at most max bytes per Read (a short read without an
+// error is legal for an io.Reader), or fails.
+type faultyEntropy struct {
+	inner io.Reader
+	max   int
+	fail  bool
+}
+
+func (f *faultyEntropy) Read(p []byte) (int, error) {
+	if f.fail {
+		return 0, errors.New("scripted entropy failure")
+	}
+	if len(p) > f.max {
+		p = p[:f.max]
+	}
+	return f.inner.Read(p)
+}
+
+// entropyFaults: with an entropy source that answers in short pieces the challenge is still 64 fresh random bytes
+// (not a prefix followed by zeros); with one that fails, nobody is authenticated. Runs alone (the source is process-wide).
+func entropyFaults(r *ev.Run, mon *chalMon) {
+	if !r.Want("entropy") {
+		return
+	}
+	orig := crand.Reader
+	defer func() { crand.Reader = orig }()
+	user := gen.Pool()[0]
+	for ci, f := range []*faultyEntropy{{inner: orig, max: 1}, {inner: orig, max: 7}, {inner: orig, max: 32}, {inner: orig, max: 63}, {inner: orig, fail: true}} {
+		c := r.Case("entropy", ci)
+		if c == nil {
+			continue
+		}
+		rec := map[string]any{"bytes_per_read": f.max, "fails": f.fail}
+		r.Eval(1)
+		r.Guard(c, "entropy fault", rec, func() {
+			kd, _ := gsrig.NewKeyDir()
+			defer kd.Remove()
+			kd.Write("alice.pub", gsrig.AuthorizedLine(user.Pub, ""))
+			gc, _, err := gsrig.GensignConfig(gsrig.Conf{PubKeyDir: kd.Path, Identifiers: map[string]string{"default": "d"}, ValiditySec: 60})
+			if err != nil {
+				r.Inconclusive(err.Error())
+				return
+			}
+			ag := wire.New()
+			defer ag.Close()
+			ag.Keyring.Add(agent.AddedKey{PrivateKey: user.Priv})
+			rig, err := gsrig.NewRig(ag, gc)
+			if err != nil {
+				r.Inconclusive(err.Error())
+				return
+			}
+			defer rig.Close()
+			for run := 0; run < 3; run++ {
+				ag.ResetLog()
+				signer := &gsrig.Signer{Agent: ag}
+				crand.Reader = f
+				runErr, escaped := gsrig.Run(gsrig.Param(gsrig.ParamSpec{LogName: "alice", ReqUser: "u", ReqHost: "h", ClientIP: "1.2.3.4", TransID: gen.Ident(c.Rand, 10), Policy: "NONS"}), []gensign.Handler{rig.Handler}, signer)
+				crand.Reader = orig
+				if escaped != "" {
+					r.Violation(c, gsrig.EscapeSig(escaped)+":entropy-fault", escaped, rec)
+					return
+				}
+				adds, signs := ag.Rec.Snapshot()
+				if f.fail {
+					if runErr == nil || signer.NumCalls() > 0 || len(adds) > 0 {
+						r.Violation(c, "provisioning-without-fresh-challenge:entropy-source-fails", fmt.Sprintf("err=%v signer calls=%d adds=%d sign requests=%d", runErr, signer.NumCalls(), len(adds), len(signs)), rec)
+						return
+					}
+					continue
+				}
+				for _, s := range signs {
+					mon.add(r, c, s.Data)
+					zeros := 0
+					for i := len(s.Data) - 1; i >= 0 && s.Data[i] == 0; i-- {
+						zeros++
+					}
+					if zeros >= 16 {
+						r.Violation(c, fmt.Sprintf("challenge-not-filled-under-short-reads:max=%d", f.max), fmt.Sprintf("challenge %x ends in %d zero bytes: only the first read of the entropy source was used", s.Data, zeros), rec)
+						return
+					}
+				}
+			}
+			r.Count("runs under a faulty entropy source judged", 3)
+			r.Nontrivial(fmt.Sprintf("entropy:%d:%v", f.max, f.fail))
 		})
 	}
 }
